@@ -1,13 +1,106 @@
----- MODULE GenN ----
+-------------------------------- MODULE GenN --------------------------------
+(* Generation instance for property C14: one JSON line per case                    *)
+(*   [dets, thr, sthr, outs, nt]                                                    *)
+(* where outs is the set of lists Nms.tla admits (a single list unless ranks tie)   *)
+(* and nt = 1 iff some box is suppressed while a box other than the top survives.   *)
+(*                                                                                  *)
+(* Mode "enum": every list of MinLen..MaxLen detections over the alphabet Alpha, every   *)
+(*   score pattern / score threshold (none, below, on, inside, above the score      *)
+(*   range) and every nms threshold of the grid.  Inputs are enumerated in Next in  *)
+(*   two stages (first detection, then the rest) so that TLC parallelises.          *)
+(* Mode "sim": for `tlc -simulate`: lists grown one random box at a time over a     *)
+(*   large lattice, ranks distinct by construction, emitted at the lengths in       *)
+(*   SimLens (up to 40).                                                            *)
+(* Skipped: cases in which a cover ratio equals the nms threshold exactly (a float  *)
+(*   implementation may decide either way) and, unless Ties, cases with equal ranks *)
+(*   among the boxes that pass the filter.                                          *)
 EXTENDS Nms, Json
-Bx == [x : {0, 1, 2}, y : {0}, w : {2, 4}, h : {2, 3, 0}, k : {0, 1}]
-Scores == {-1, 500, 2500, 2600}
-VARIABLES dets, thr, sthr, done
-Dt == [box : Bx, score : Scores]
-Init == /\ dets \in [1..3 -> Dt] /\ thr \in {<<3, 10>>, <<7, 10>>} /\ sthr \in {-1, 400, 2550} /\ done = FALSE
-        \* distinct ranks among valid, passing detections keep the expected output unique
-        /\ \A i, j \in 1..3 : (i # j /\ Passes(dets[i], sthr) /\ Passes(dets[j], sthr)) => Rank(dets[i]) # Rank(dets[j])
-        /\ dets[1].box.x <= dets[2].box.x
-Next == done = FALSE /\ done' = TRUE /\ UNCHANGED <<dets, thr, sthr>>
-Emit == done => PrintT(<<"REPLAY", ToJson([kind |-> "nms", dets |-> dets, thr |-> thr, sthr |-> sthr, out |-> Nms(dets, thr, sthr)])>>)
-====
+CONSTANTS Mode,     \* "enum" | "sim"
+          Alpha,    \* "tiny" | "small" | "full" : box alphabet
+          MinLen,   \* shortest list (enum)
+          MaxLen,   \* longest list (enum)
+          Grid,     \* "quick" | "full" : nms threshold grid
+          Ties      \* TRUE: emit rank-tied cases with every admissible list
+VARIABLES stage, c
+vars == <<stage, c>>
+
+B(x, y, w, h, k, na) == [x |-> x, y |-> y, w |-> w, h |-> h, k |-> k, na |-> na]
+(* half-unit lattice boxes: centre (x/2, y/2), width w/2, height h/2, angle k quarter turns (na = 1: angle None) *)
+Nested    == { B(0, 0, 8, 6, 0, 1), B(0, 0, 6, 4, 0, 0), B(0, 0, 2, 2, 0, 1), B(1, 1, 4, 3, 0, 0) }
+Clustered == { B(2, 0, 8, 6, 0, 0), B(4, 1, 8, 6, 0, 1), B(0, 3, 6, 4, 0, 1), B(3, 1, 6, 4, 0, 0),
+               B(-2, -1, 6, 8, 0, 1), B(1, -2, 4, 2, 0, 0), B(5, 2, 3, 3, 0, 1), B(-3, 2, 5, 4, 0, 0) }
+Rotated   == { B(0, 0, 8, 4, 1, 0), B(1, 0, 6, 2, 1, 0), B(1, 1, 4, 8, 1, 0), B(2, 2, 6, 3, 1, 0),
+               B(0, 0, 6, 4, 3, 0), B(1, 1, 4, 3, 2, 0), B(-1, 1, 3, 6, 3, 0), B(3, -1, 2, 8, 5, 0),
+               B(0, 0, 6, 8, 1, 0) }             \* the last one covers the same region as B(0,0,8,6,0)
+Sparse    == { B(30, 30, 4, 4, 0, 1), B(30, 0, 6, 3, 1, 0), B(-30, 5, 2, 6, 0, 0), B(0, 40, 4, 2, 2, 0) }
+Invalid   == { B(0, 0, 0, 4, 0, 1), B(0, 0, 4, 0, 0, 0), B(1, 1, -2, 4, 0, 1), B(0, 0, 4, -2, 1, 0), B(2, 0, 0, 0, 0, 1) }
+Full  == Nested \cup Clustered \cup Rotated \cup Sparse \cup Invalid          \* 30 boxes
+Small == { B(0, 0, 8, 6, 0, 1), B(0, 0, 6, 4, 0, 0), B(0, 0, 2, 2, 0, 1), B(1, 1, 4, 3, 0, 0),
+           B(2, 0, 8, 6, 0, 0), B(0, 3, 6, 4, 0, 1), B(3, 1, 6, 4, 0, 0), B(-2, -1, 6, 8, 0, 1),
+           B(0, 0, 8, 4, 1, 0), B(1, 0, 6, 2, 1, 0), B(2, 2, 6, 3, 1, 0), B(1, 1, 4, 3, 2, 0), B(0, 0, 6, 8, 1, 0),
+           B(30, 30, 4, 4, 0, 1), B(0, 0, 0, 4, 0, 1), B(0, 0, 4, 0, 0, 0) }                               \* 16 boxes
+Tiny  == { B(0, 0, 8, 6, 0, 1), B(0, 0, 6, 4, 0, 0), B(1, 1, 4, 3, 0, 0), B(2, 0, 8, 6, 0, 0),
+           B(1, 0, 6, 2, 1, 0), B(2, 2, 6, 3, 1, 0), B(-2, -1, 6, 8, 0, 1), B(0, 0, 4, 0, 0, 0) }           \* 8 boxes
+Boxes == IF Alpha = "full" THEN Full ELSE IF Alpha = "small" THEN Small ELSE Tiny
+
+Thrs == IF Grid = "full" THEN {<<1, 10>>, <<3, 10>>, <<1, 2>>, <<7, 10>>, <<9, 10>>} ELSE {<<3, 10>>, <<7, 10>>}
+(* score patterns by position (hundredths; -1 = no score) with their score thresholds:
+   none / below / equal to a score / inside / above the score range.  Heights rank as 50 h = 100 .. 400 *)
+Configs ==
+  {<<p, s>> : p \in {<<-1, -1, -1, -1>>}, s \in {-1, 90}} \cup
+  {<<p, s>> : p \in {<<20, 40, 60, 80>>}, s \in {-1, 10, 40, 50, 90}} \cup
+  {<<p, s>> : p \in {<<-1, 130, -1, 70>>, <<170, -1, 250, -1>>}, s \in {-1, 130, 300}}
+
+Case(dets, thr, sthr) ==
+  [kind |-> "nms", dets |-> dets, thr |-> thr, sthr |-> sthr,
+   outs |-> NmsAll(dets, thr, sthr), nt |-> IF Interesting(dets, thr, sthr) THEN 1 ELSE 0]
+Emittable(dets, thr, sthr) == ~KnifeEdge(dets, thr, sthr) /\ (Ties \/ TieFree(dets, sthr))
+(* the specification's own facts, asserted on every emitted case (cheap forms; MCN checks uniqueness) *)
+Facts(dets, thr, sthr) == IsResult(dets, thr, sthr, NmsSet(dets, thr, sthr)) /\ Ordered(dets, thr, sthr) /\ Idempotent(dets, thr, sthr)
+
+Init == stage = 0 /\ c = [kind |-> "init"]
+EnumNext ==
+  \/ /\ stage = 0 /\ stage' = 1
+     /\ \/ MinLen = 0 /\ c' = [n |-> 0, b |-> B(0, 0, 0, 0, 0, 0)]
+        \/ \E n \in 1..MaxLen, b \in Boxes : n >= MinLen /\ c' = [n |-> n, b |-> b]
+  \/ /\ stage = 1 /\ stage' = 2
+     /\ \E rest \in [2..c.n -> Boxes], cf \in Configs, thr \in Thrs :
+          LET dets == [i \in 1..c.n |-> [box |-> IF i = 1 THEN c.b ELSE rest[i], score |-> cf[1][i]]] IN
+          /\ Emittable(dets, thr, cf[2])
+          /\ Assert(Facts(dets, thr, cf[2]), <<"C14 violated by the specification", dets, thr, cf[2]>>)
+          /\ c' = Case(dets, thr, cf[2])
+
+(* ---- simulation: boxes on a large lattice built coordinate by coordinate (TLC's simulator draws each choice
+   uniformly among the successors); ranks distinct by construction (a used rank is never offered again).
+   TLC evaluates invariants on every candidate successor, so the case is emitted from the single successor
+   (ph = 5 -> 0) of the state the simulator actually drew. *)
+SimLens == {6, 12, 24, 40}
+SimMax == 40
+ScoreSpace == {5 * i : i \in 1..160}
+SimNext ==
+  \/ /\ stage = 0 /\ stage' = 1
+     /\ \E m \in {"none", "scored", "mixed"}, thr \in Thrs, st \in {-1, 60, 150, 900} :
+          c' = [mode |-> m, thr |-> thr, sthr |-> st, dets |-> <<>>, ranks |-> {}, ph |-> 0, b |-> B(0, 0, 0, 0, 0, 0)]
+  \/ /\ stage = 1 /\ Len(c.dets) < SimMax /\ stage' = 1
+     /\ \/ /\ c.ph = 0 /\ \E x \in -60..60 : c' = [c EXCEPT !.ph = 1, !.b.x = x]
+        \/ /\ c.ph = 1 /\ \E y \in -30..30 : c' = [c EXCEPT !.ph = 2, !.b.y = y]
+        \/ /\ c.ph = 2 /\ \E w \in 0..24, k \in 0..4 : c' = [c EXCEPT !.ph = 3, !.b.w = w, !.b.k = IF k = 4 THEN 0 ELSE k, !.b.na = IF k = 4 THEN 1 ELSE 0]
+        \/ /\ c.ph = 3 /\ \E h \in 0..(IF c.mode = "none" THEN 48 ELSE 16) : c' = [c EXCEPT !.ph = 4, !.b.h = h]
+        \/ /\ c.ph = 4
+           /\ \E sc \in (IF c.mode = "scored" THEN {} ELSE {-1}) \cup (IF c.mode = "none" THEN {} ELSE ScoreSpace) :
+                LET d == [box |-> c.b, score |-> sc] IN
+                /\ Valid(d) => Rank(d) \notin c.ranks
+                /\ c' = [c EXCEPT !.ph = 5, !.dets = Append(@, d), !.ranks = IF Valid(d) THEN @ \cup {Rank(d)} ELSE @]
+        \/ /\ c.ph = 4 /\ c.mode = "none" /\ Valid([box |-> c.b]) /\ 50 * c.b.h \in c.ranks      \* height already used: draw it again
+           /\ c' = [c EXCEPT !.ph = 3]
+        \/ /\ c.ph = 5 /\ c' = [c EXCEPT !.ph = 0]       \* the only successor of a drawn state: the case is emitted here, once
+SimOut == [kind |-> "nms", dets |-> c.dets, thr |-> c.thr, sthr |-> c.sthr,
+           outs |-> {Nms(c.dets, c.thr, c.sthr)}, nt |-> IF Interesting(c.dets, c.thr, c.sthr) THEN 1 ELSE 0]
+
+Next == IF Mode = "enum" THEN EnumNext ELSE SimNext
+Spec == Init /\ [][Next]_vars
+Emit == IF Mode = "enum" THEN stage = 2 => PrintT(<<"REPLAY", ToJson(c)>>)
+        ELSE (stage = 1 /\ c.ph = 0 /\ Len(c.dets) \in SimLens /\ ~KnifeEdge(c.dets, c.thr, c.sthr)) =>
+               /\ Assert(IsResult(c.dets, c.thr, c.sthr, NmsSet(c.dets, c.thr, c.sthr)), "C14 violated by the specification (sim)")
+               /\ PrintT(<<"REPLAY", ToJson(SimOut)>>)
+=============================================================================
